@@ -345,6 +345,12 @@ impl<'t> Gen<'t> {
             self.feat("enum:mixed-payloads");
             let k = 2 + self.t.choose(3);
             for j in 0..k {
+              // a variant sometimes repeats the previous payload (lets or-patterns bind variables)
+              if j > 0 && !vs[j - 1].1.is_empty() && self.t.bool(1, 3) {
+                let payload = vs[j - 1].1.clone();
+                vs.push((tag(j), payload));
+                continue;
+              }
               let arity = self.t.choose(4);
               let mut payload = vec![];
               for a in 0..arity {
@@ -1613,6 +1619,33 @@ impl<'t> Gen<'t> {
     let zero_ary: Vec<usize> = order.iter().copied().filter(|i| vs[*i].1.is_empty()).collect();
     let merge_zero = zero_ary.len() >= 2 && self.t.bool(1, 2);
     let mut merged_done = false;
+    // two variants with the same non-empty payload: one arm `A(x, y) | B(x, y)` binding the same names
+    let mut same_payload: Option<(usize, usize)> = None;
+    for a in 0..vs.len() {
+      for b in a + 1..vs.len() {
+        if !vs[a].1.is_empty() && vs[a].1 == vs[b].1 && same_payload.is_none() && wildcard_from.is_none() {
+          same_payload = Some((a, b));
+        }
+      }
+    }
+    if same_payload.is_some() && !self.t.bool(2, 3) {
+      same_payload = None;
+    }
+    if let Some((a, b)) = same_payload {
+      self.feat("pattern:or-with-binders");
+      let payload: Vec<Ty> = vs[a].1.iter().map(|t| t.subst(&map)).collect();
+      let base = cx.env.len();
+      let pats: Vec<Pat> = payload.iter().map(|t| Pat::Var(self.fresh("q"), t.clone())).collect();
+      let (first, second) = if self.t.bool(1, 2) { (a, b) } else { (b, a) };
+      let pat = Pat::Or(vec![Pat::Variant(vs[first].0.clone(), pats.clone()), Pat::Variant(vs[second].0.clone(), pats.clone())]);
+      let mut bs = vec![];
+      Pat::Variant(vs[first].0.clone(), pats).binders(&mut bs);
+      cx.env.extend(bs);
+      let body = self.expr(ty, cx, d);
+      cx.env.truncate(base);
+      arms.push((pat, body));
+      order.retain(|i| *i != a && *i != b);
+    }
     for (k, vi) in order.iter().enumerate() {
       if let Some(w) = wildcard_from
         && k >= w
